@@ -142,7 +142,15 @@ func Mutate(w *Wire, recipe string, n int) {
 		// a span without ids
 		td := &otlpTrace.TracesData{ResourceSpans: []*otlpTrace.ResourceSpans{{ScopeSpans: []*otlpTrace.ScopeSpans{{Spans: []*otlpTrace.Span{{
 			TraceId: []byte("0123456789abcdef"), SpanId: []byte("01234567"), Name: "sparse", StartTimeUnixNano: 1, EndTimeUnixNano: 2}}}}}}}
-		switch n % 3 {
+		switch n % 4 {
+		case 3:
+			// ids longer than 16 and 8 bytes (a client that sends the hex text instead of the bytes)
+			td.ResourceSpans[0].Resource = &otlpRes.Resource{}
+			td.ResourceSpans[0].ScopeSpans[0].Spans[0].TraceId = []byte("000102030405060708090a0b0c0d0e0f")
+			if n%8 == 7 {
+				td.ResourceSpans[0].ScopeSpans[0].Spans[0].TraceId = []byte("0123456789abcdef")
+				td.ResourceSpans[0].ScopeSpans[0].Spans[0].SpanId = []byte("012345678")
+			}
 		case 1:
 			td.ResourceSpans[0].Resource = &otlpRes.Resource{Attributes: []*otlpCommon.KeyValue{{Key: "service.name"}, {Key: "peer.service"}}}
 		case 2:
